@@ -12,7 +12,7 @@ from typing import Dict, List, Optional, Set, Tuple
 
 from oqv.astutil import call_name, method_call
 from oqv.cfg import CFG
-from oqv.dataflow import DefUse
+from oqv.dataflow import DefUse, origin, origin_text
 from oqv.model import AnalysisError, Program, Unit, dotted, norm, walk_local
 from oqv.report import Check
 
@@ -175,38 +175,69 @@ def e2(prog: Program, chk: Check) -> None:
     sites = ["backends.tempo_backend:BaseTempoBackend.initialize_mps_mpo",
              "pt_tempo:PtTempo._init_simple_process_tensor",
              "pt_tempo:PtTempo._init_file_process_tensor"]
-    for q in sites:
+    def kind_of(v: ast.AST) -> Optional[str]:
+        while isinstance(v, ast.Attribute) and v.attr == "T":
+            v = v.value
+        if not (isinstance(v, ast.Call) and (dotted(v.func) or "").split(".")[-1]
+                == "left_right_super" and len(v.args) == 2):
+            return None
+        a, b = v.args
+        ab, bb = adjoint_base(a), adjoint_base(b)
+        if ab is not None and bb is None and norm(ab) == norm(b):
+            return "(U^dagger, U)"
+        if bb is not None and ab is None and norm(bb) == norm(a):
+            return "(U, U^dagger)"
+        return f"({norm(a)}, {norm(b)})"
+
+    # the back end stores the pair in two attributes; the direction is in the attribute name
+    u = prog.unit(sites[0])
+    du0 = DefUse(u, CFG(u.node, exc_edges=False))
+    chk.saw(u, du0.cfg)
+    found = 0
+    for st in walk_local(u.node):
+        if not isinstance(st, ast.Assign):
+            continue
+        tname = dotted(st.targets[0]) or ""
+        if not tname.startswith("self."):
+            continue
+        kind = kind_of(origin(du0, du0.node_of(st.value), st.value))
+        if kind is None:
+            continue
+        found += 1
+        want = "(U^dagger, U)" if tname.endswith("_dagg") else "(U, U^dagger)"
+        chk.add("E2", u, f"{tname} = left_right_super{kind}", kind == want,
+                "" if kind == want else
+                f"expected {want}: the basis change into the diagonal basis and back are "
+                f"not mutual adjoints", st)
+    if found != 2:
+        chk.add("E2", u, "pair of left_right_super constructions", False,
+                f"{found} constructions found, expected 2")
+    # PT-TEMPO hands the pair to the process tensor; the direction is in the keyword
+    for q in sites[1:]:
         u = prog.unit(q)
-        chk.saw(u)
-        found = 0
-        for st in walk_local(u.node):
-            if not isinstance(st, ast.Assign):
+        du1 = DefUse(u, CFG(u.node, exc_edges=False))
+        chk.saw(u, du1.cfg)
+        ctor = [c for c in walk_local(u.node) if isinstance(c, ast.Call)
+                and call_name(c) in ("SimpleProcessTensor", "FileProcessTensor")]
+        if len(ctor) != 1:
+            raise AnalysisError(f"E2: {q} no longer constructs one process tensor")
+        kw = {k.arg: k.value for k in ctor[0].keywords}
+        for key, want in (("transform_in", "(U^dagger, U)"), ("transform_out", "(U, U^dagger)")):
+            if key not in kw:
+                chk.add("E2", u, f"{call_name(ctor[0])}({key}=<missing>)", False,
+                        "the process tensor is built without its basis change", ctor[0])
                 continue
-            v = st.value
-            while isinstance(v, ast.Attribute) and v.attr == "T":
-                v = v.value
-            if not (isinstance(v, ast.Call) and (dotted(v.func) or "").split(".")[-1]
-                    == "left_right_super" and len(v.args) == 2):
-                continue
-            found += 1
-            tname = dotted(st.targets[0]) or ""
-            a, b = v.args
-            ab, bb = adjoint_base(a), adjoint_base(b)
-            if ab is not None and bb is None and norm(ab) == norm(b):
-                kind = "(U^dagger, U)"
-            elif bb is not None and ab is None and norm(bb) == norm(a):
-                kind = "(U, U^dagger)"
-            else:
-                kind = f"({norm(a)}, {norm(b)})"
-            inward = tname.endswith("_dagg") or tname.endswith("transform_in")
-            want = "(U^dagger, U)" if inward else "(U, U^dagger)"
-            chk.add("E2", u, f"{tname} = left_right_super{kind}", kind == want,
-                    "" if kind == want else
-                    f"expected {want}: the basis change into the diagonal basis and back are "
-                    f"not mutual adjoints", st)
-        if found != 2:
-            chk.add("E2", u, "pair of left_right_super constructions", False,
-                    f"{found} constructions found, expected 2")
+            o = origin(du1, du1.node_of(ctor[0]), kw[key])
+            alts = o.args if isinstance(o, ast.Call) and isinstance(o.func, ast.Name) \
+                and o.func.id == "PHI" else [o]
+            # `None` (identity transform, nothing to rotate) is the other alternative
+            alts = [x for x in alts if not (isinstance(x, ast.Constant) and x.value is None)]
+            kinds = {kind_of(x) for x in alts}
+            kind = kinds.pop() if len(kinds) == 1 else None
+            chk.add("E2", u, f"{call_name(ctor[0])}({key} = left_right_super{kind})",
+                    kind == want, "" if kind == want else
+                    f"expected {want}: in/out transforms are swapped or not mutual adjoints",
+                    ctor[0])
     # both superoperators are applied to the dk=0 tensor / handed over under the right keyword
     u = prog.unit(sites[0])
     uses = {"self._super_u": 0, "self._super_u_dagg": 0}
@@ -219,16 +250,6 @@ def e2(prog: Program, chk: Check) -> None:
     ok = all(v == 1 for v in uses.values())
     chk.add("E2", u, f"dk=0 tensor rotated once by each of {sorted(uses)}", ok,
             "" if ok else f"use counts {uses}")
-    for q in sites[1:]:
-        u = prog.unit(q)
-        for c in walk_local(u.node):
-            if isinstance(c, ast.Call) and call_name(c) in ("SimpleProcessTensor", "FileProcessTensor"):
-                kw = {k.arg: norm(k.value) for k in c.keywords}
-                ok = kw.get("transform_in") == "transform_in" and \
-                    kw.get("transform_out") == "transform_out"
-                chk.add("E2", u, f"{call_name(c)}(transform_in={kw.get('transform_in')}, "
-                        f"transform_out={kw.get('transform_out')})", ok,
-                        "" if ok else "in/out transforms are handed over swapped", c)
 
 
 def e3(prog: Program, chk: Check) -> None:
